@@ -112,13 +112,13 @@ void QXmppResultSetQuery::parse(const QDomElement &element)
     if (setElement.namespaceURI() == ns_rsm) {
         bool ok = false;
         m_max = setElement.firstChildElement(u"max"_s).text().toInt(&ok);
-        if (!ok) {
+        if (!ok || m_max < 0) {
             m_max = -1;
         }
         m_after = setElement.firstChildElement(u"after"_s).text();
         m_before = setElement.firstChildElement(u"before"_s).text();
         m_index = setElement.firstChildElement(u"index"_s).text().toInt(&ok);
-        if (!ok) {
+        if (!ok || m_index < 0) {
             m_index = -1;
         }
     }
@@ -233,13 +233,13 @@ void QXmppResultSetReply::parse(const QDomElement &element)
     if (setElement.namespaceURI() == ns_rsm) {
         bool ok = false;
         m_count = firstChildElement(setElement, u"count").text().toInt(&ok);
-        if (!ok) {
+        if (!ok || m_count < 0) {
             m_count = -1;
         }
         QDomElement firstElem = firstChildElement(setElement, u"first");
         m_first = firstElem.text();
         m_index = firstElem.attribute(u"index"_s).toInt(&ok);
-        if (!ok) {
+        if (!ok || m_index < 0) {
             m_index = -1;
         }
         m_last = firstChildElement(setElement, u"last").text();
